@@ -78,8 +78,19 @@ func (c *Cache[K, D]) CheckExpirations(now time.Time) {
 	c.Range(func(key K, value *Element[D]) bool {
 		if value.IsExpired(now) {
 			verifYield("cache.CheckExpirations")
-			c.Delete(key)
-			value.onExpire(value.Data())
+			// The expiry test ran without the lock: remove the key only if it still holds
+			// the element that was found expired, not one that replaced it meanwhile.
+			removed := false
+			c.ReplaceWithFunc(key, func(oldValue *Element[D], oldLoaded bool) (*Element[D], bool) {
+				if oldLoaded && oldValue == value {
+					removed = true
+					return nil, true
+				}
+				return oldValue, !oldLoaded
+			})
+			if removed {
+				value.onExpire(value.Data())
+			}
 		}
 		return true
 	})
